@@ -35,6 +35,10 @@ const c07Prelude = `(do
  (def lpt (fn [n] (t! n) (lpt (+ n 1))))
  (def rec (fn [n] (+ 1 (rec (+ n 1)))))
  (defmacro mm (fn [n] (list 'mm (+ n 1))))
+ (defmacro spin (fn [] '(spin)))
+ (defmacro ping (fn [] '(pong)))
+ (defmacro pong (fn [] '(ping)))
+ (defmacro again (fn [x] (quote (again 1))))
  (def a (atom 0)))`
 
 // cancel: the caller cancels at the instant; deadline: the caller's deadline is the instant;
@@ -47,6 +51,12 @@ func c07Shapes(tier string) []c07shape {
 		{name: "tail-loop-with-effects", text: "(lpt 0)"},
 		{name: "non-tail-recursion", text: "(rec 0)"},
 		{name: "macro-self-expansion", text: "(mm 0)"},
+		// macros that expand to their own call without calling anything while expanding
+		{name: "macro-expanding-to-itself-quoted", text: "(spin)"},
+		{name: "mutually-expanding-macros", text: "(ping)"},
+		{name: "macro-expanding-to-itself-with-operand", text: "(again 5)"},
+		{name: "handler-spins-in-macro-expansion", text: "(try (sleep 100000) (catch e (t! :h) (spin)))", handler: true, depth: 1},
+		{name: "finally-spins-in-macro-expansion", text: "(try 5 (finally (t! :fin) (spin)))", finally: true, depth: 1},
 		{name: "sleep", text: "(sleep 100000)"},
 		{name: "sleeps-and-effects", text: "(do (sleep 30) (t! 1) (sleep 30) (t! 2) (sleep 30) (t! 3) (sleep 100000))"},
 		{name: "let-if-do-loop", text: "(let [x 1] (if x (do (t! 1) (lp 0))))"},
